@@ -49,7 +49,9 @@ enum {
   MYTH_VP_CREATE_BEGIN = 91, MYTH_VP_CREATE_1 = 92, MYTH_VP_CREATE_PUSHED = 93,
   /* allocation ledger: b = block */
   MYTH_VP_DESC_GET = 95, MYTH_VP_DESC_FREE = 96, MYTH_VP_STACK_GET = 97, MYTH_VP_STACK_FREE = 98,
-  MYTH_VP_YIELD_CB = 99
+  MYTH_VP_YIELD_CB = 99,
+  /* felock: a = fe */
+  MYTH_VP_FE_WAL_BEGIN = 110, MYTH_VP_FE_WAL_CHECK = 111, MYTH_VP_FE_MARK = 112
 };
 
 /* point ids of the bulk fork-join helpers (myth_create_join_various_ex_aux) */
